@@ -34,7 +34,8 @@ EXTRA_MODULES = {
     "C14": ["Proofs.C14", "Proofs.C14Source"],
     "C18": ["Proofs.C18"],
     "C19": ["Proofs.C19"],
-    "C01": ["Proofs.C01", "Proofs.NoPanic", "Proofs.StdNoPanic", "Proofs.ArrNoPanic", "Proofs.JsonFilter"],
+    "C01": ["Proofs.C01", "Proofs.NoPanic", "Proofs.StdNoPanic", "Proofs.ArrNoPanic", "Proofs.JsonFilter", "Proofs.DateFilter"],
+    "C17": ["Proofs.DateFilter"],
     "C02": ["Proofs.C02", "Proofs.JsonFilter"],
     "C03": ["Proofs.C03"],
     "C20": ["Proofs.C20", "Proofs.C20Source"],
